@@ -364,9 +364,13 @@ class Canon:
                         out.extend(st)
                         pat = s["pat"]
                         t = _strip(tail)
+                        spliced = pre + st
                         if pat.get("k") == "Tuple" and t.get("k") == "Tup" and len(pat.get("ps", [])) == len(t.get("es", [])):
                             for q, x in zip(pat["ps"], t["es"]):
-                                out.append({"k": "Let", "pat": q, "init": x, "sp": x.get("sp") or s.get("sp")})
+                                if not self._merge_alias(spliced, q, x, [y for y in t["es"] if y is not x]):
+                                    out.append({"k": "Let", "pat": q, "init": x, "sp": x.get("sp") or s.get("sp")})
+                        elif self._merge_alias(spliced, pat, tail, []):
+                            pass
                         else:
                             s["init"] = tail
                             # the let now sits after the inlined statements
@@ -394,6 +398,33 @@ class Canon:
             blk["stmts"] = out
             # the spliced statements may themselves start with inlinable calls that were nested deeper
         return changed
+
+    @staticmethod
+    def _merge_alias(spliced, pat, init, others):
+        """`let v_in = E; ...; let [mut] p = v_in` where v_in is a local of the inlined callee that dies with it:
+        the callee's local simply becomes the caller's binding (no alias)."""
+        x = _strip(init)
+        if pat.get("k") != "Bind" or pat.get("byref") or x.get("k") != "Local":
+            return False
+        vin = x["v"]
+        decl = None
+        for st in spliced:
+            if st.get("k") == "Let" and st.get("pat", {}).get("k") == "Bind" and st["pat"].get("v") == vin:
+                decl = st
+        if decl is None:
+            return False
+        if any(n.get("k") == "Local" and n.get("v") == vin for o in others for n in _walk(o)):
+            return False
+        for st in spliced:
+            for n in _walk(st):
+                if n.get("k") in ("Local", "Bind") and n.get("v") == vin:
+                    n["v"] = pat["v"]
+                    if n.get("k") == "Bind":
+                        n["mut"] = bool(n.get("mut")) or bool(pat.get("mut"))
+                        n["name"] = pat.get("name", n.get("name"))
+                    else:
+                        n["name"] = pat.get("name", n.get("name"))
+        return True
 
     def inline_exprs(self, body, owner):
         """Statement-free callee bodies replace the call expression wherever it stands."""
@@ -534,7 +565,17 @@ class Canon:
             r.pop("adj", None)          # a shared read of the length, whatever borrow the iterator took
             return usz({"k": "MethodCall", "name": "len", "fn": "std::vec::Vec<T, A>::len", "impl": "std::vec::Vec<T, A>::len", "fn_local": False,
                         "recv": r, "args": []})
-        hi = length(srcs[0][0])
+        if any(len(s_) > 2 for s_ in srcs):
+            # a sub-slice X[a..b]: only the single-source, no skip form is rewritten (index i runs over a..b itself)
+            if len(srcs) != 1 or lo_extra is not None or take is not None or enum:
+                return
+            c_, _m, lo_n, hi_n, incl_n = srcs[0]
+            if incl_n:
+                return
+            lo_extra = lo_n
+            hi = copy.deepcopy(hi_n) if hi_n is not None else length(c_)
+        else:
+            hi = length(srcs[0][0])
         for s in srcs[1:]:
             hi = usz({"k": "Call", "f": {"k": "Def", "dk": "Fn", "fn": "std::cmp::min", "id": self._id(), "ty": "fn", "sp": list(isp)}, "args": [hi, length(s[0])]})
         if take is not None:
@@ -550,7 +591,8 @@ class Canon:
             return
         bsp = body.get("sp") or sp
         lets = []
-        for (c, mutable), q in zip(srcs, elem_pats):
+        for src_, q in zip(srcs, elem_pats):
+            c, mutable = src_[0], src_[1]
             q2 = q["p"] if q.get("k") == "Ref" else q
             if q2.get("k") == "Wild":
                 continue
@@ -644,12 +686,37 @@ class Canon:
         self.stats["iterator_loops"] += 1
 
     @staticmethod
+    def _subrange(r):
+        """X[a..b] / X[..b] / X[a..] / X[..]  ->  (X, lo node | None, hi node | None, inclusive)"""
+        n = r
+        while n.get("k") == "AddrOf" or (n.get("k") == "Unary" and n.get("op") == "*") or \
+                (n.get("k") == "Block" and not n.get("stmts") and n.get("expr") is not None):
+            n = n["e"] if n.get("k") != "Block" else n["expr"]
+        if n.get("k") != "Index":
+            return None
+        ix = n["idx"]
+        if ix.get("k") == "Range":
+            return n["base"], ix.get("lo"), ix.get("hi"), bool(ix.get("incl"))
+        if ix.get("k") == "Struct" and str(ix.get("path", "")).startswith("std::ops::Range"):
+            fl = {f["name"]: f["e"] for f in ix.get("fields", [])}
+            nm = ix["path"].split("::")[-1]
+            if nm in ("RangeTo", "RangeFrom", "RangeFull", "Range"):
+                return n["base"], fl.get("start"), fl.get("end"), False
+            if nm == "RangeToInclusive":
+                return n["base"], None, fl.get("end"), True
+        return None
+
+    @staticmethod
     def _container(it):
-        """(container expr, mutable) for X.iter() / X.iter_mut() / &X / &mut X / X.into_iter() over a Vec / slice."""
+        """(container expr, mutable[, lo, hi, incl]) for X.iter() / X.iter_mut() / &X / &mut X over a Vec / slice,
+        X possibly a sub-slice X0[a..b]."""
         k = it.get("k")
         if k == "MethodCall" and it.get("name") in ("iter", "iter_mut") and not it.get("args"):
             fnp = str(it.get("impl") or it.get("fn") or "")
             if "[T]" in fnp or "slice" in fnp or "Vec" in fnp:
+                sub = Canon._subrange(it["recv"])
+                if sub is not None:
+                    return sub[0], it["name"] == "iter_mut", sub[1], sub[2], sub[3]
                 return it["recv"], it["name"] == "iter_mut"
             return None
         if k == "AddrOf":
